@@ -362,7 +362,7 @@ def handleWObs (acc : Acc) (h : WHist) (kv : KV) (_line : String) : Acc × WHist
         match World.applyTx h.last.w env sender funds tx with
         | .ok _ => "{model-accepts}"
         | .error _ => "{model-rejects}"
-      let acc := (allChecks step ++ extraChecks step ++ extraChecks2 step ++ extraChecks3 step).foldl (fun a pc =>
+      let acc := (allChecks step ++ extraChecks step ++ extraChecks2 step ++ extraChecks3 step ++ extraChecks4 step).foldl (fun a pc =>
         pc.2.foldl (fun a tag =>
           a.report "SPECFAIL" pc.1 (if pc.1 == "C07" then s!"{kind}:{tag}{errClass}{modelVerdict}" else s!"{kind}:{tag}") tline) a) acc
       -- C14: the insurance fund's membership queries agree with its stored registry (after every transaction)
